@@ -774,6 +774,8 @@ def _struct_same(v, o):
     if isinstance(v, MapV) and isinstance(o, MapV):
         if v.items is None and o.items is None:
             return v.dom is o.dom and v.fn is o.fn
+        if v.items is not None and o.items is not None and len(v.items) == len(o.items):
+            return all(_struct_same(k1, k2) and _struct_same(x1, x2) for (k1, x1), (k2, x2) in zip(v.items, o.items))
         return False
     if isinstance(v, SeqV) and isinstance(o, SeqV) and v.kind == o.kind and len(v.segs) == len(o.segs):
         for a, b in zip(v.segs, o.segs):
@@ -1369,7 +1371,11 @@ def composition_after_add_ok(ex, L, old, well, volume, comp):
     seen = []
     for k, arr in L.fields["_composition"].items:
         total = total + term(arr.fn(r, c), "real")
-    conj.append(z3.Implies(z3.And(v_old + v > 0, z3.Or(v_old == 0, _sum_old(ex, old, r, c) == 1)), total == 1))
+    incoming = z3.RealVal(0)
+    for _, f in comp.items:
+        incoming = incoming + term(f, "real")
+    # (a liquid without tracked components dilutes: the fractions then add up to less than 1)
+    conj.append(z3.Implies(z3.And(v_old + v > 0, z3.Or(v_old == 0, _sum_old(ex, old, r, c) == 1), z3.Or(v == 0, incoming == 1)), total == 1))
     return mk_bool(z3.And(*conj))
 
 
@@ -1549,3 +1555,89 @@ def pos_mono_all(ex, wells, volumes):
     CNT, SEL, vj, j = _posfilter(ex, bv)
     ex.p.assume(CNT(0) == 0)
     return True
+
+
+# ----------------------------------------------------------------------------- get_initial_composition (C05 / C20)
+
+
+def _gic_cells(ex, real_wells, component_names, initial_volumes):
+    """[(r, c, well, volume-term, given-name or None)] over a concrete-shape well array"""
+    from .values import MapV
+
+    if not (isinstance(real_wells, Arr2V) and isinstance(real_wells.rows, int) and isinstance(real_wells.cols, int)):
+        raise Unsupported("get_initial_composition spec: well array of symbolic shape")
+    if not (isinstance(component_names, MapV) and component_names.is_concrete()):
+        raise Unsupported("get_initial_composition spec: component_names must be a concrete-key dict")
+    out = []
+    for r in range(real_wells.rows):
+        for c in range(real_wells.cols):
+            w = real_wells.fn(r, c)
+            given = None
+            for k, v in component_names.items:
+                e = ops.equals(ex, k, w)
+                if not isinstance(e, bool):
+                    raise Unsupported("get_initial_composition spec: symbolic component_names key")
+                if e:
+                    given = v
+            out.append((r, c, w, term(initial_volumes.fn(r, c), "real"), given))
+    return out
+
+
+@spec
+def gic_rejects(ex, real_wells, component_names, initial_volumes):
+    """a name is given for a well that does not exist, or a (non-None) name is given for an empty well"""
+    cells = _gic_cells(ex, real_wells, component_names, initial_volumes)
+    bad = []
+    for k, _ in component_names.items:
+        if not any(ops.equals(ex, k, w) is True for (_, _, w, _, _) in cells):
+            return True
+    for (_, _, _, v, given) in cells:
+        if given is not None:
+            bad.append(v == 0)
+    return mk_bool(z3.Or(*bad)) if bad else False
+
+
+def _gic_expected(ex, name, real_wells, cell):
+    """acceptable component names of a non-empty well"""
+    r, c, w, v, given = cell
+    if given is not None:
+        return [given]
+    dotted = lib.join_str_parts(ex, [lib.format_value(ex, name, "", -1), ".", lib.format_value(ex, w, "", -1)])
+    if real_wells.rows > 1:
+        return [dotted]
+    if real_wells.cols == 1:
+        return [name]
+    return [name, dotted]  # single-row, multi-column plates: the property does not fix the default
+
+
+@spec
+def gic_ok(ex, result, name, real_wells, component_names, initial_volumes):
+    """every non-empty well consists 100 % of its expected component (given name, else `<labware>.<well>` on multi-row
+    labware, else the labware name) and 0 % of every other; empty wells contain nothing; there are no other components;
+    every component array has the shape of the well array"""
+    cells = _gic_cells(ex, real_wells, component_names, initial_volumes)
+    conj = []
+    for k, arr in result.items:
+        if not isinstance(arr, Arr2V):
+            return False
+        conj.append(zbool(unwrap_bool(ops.and_(ex, ops.compare(ex, "==", lib._symint(arr.rows), real_wells.rows),
+                                               ops.compare(ex, "==", lib._symint(arr.cols), real_wells.cols)))))
+
+    def accepted(k, cell):
+        return z3.Or(*[zbool(unwrap_bool(ops.equals(ex, k, a))) for a in _gic_expected(ex, name, real_wells, cell)])
+
+    for cell in cells:
+        r, c, w, v, given = cell
+        acc = [accepted(k, cell) for k, _ in result.items]
+        frac = [term(arr.fn(r, c), "real") for _, arr in result.items]
+        filled = z3.And(z3.Sum(*frac) == 1 if len(frac) > 1 else (frac[0] == 1 if frac else z3.BoolVal(False)),
+                        *[z3.Or(f == 0, z3.And(f == 1, a)) for a, f in zip(acc, frac)])
+        empty = z3.And(*[f == 0 for f in frac]) if frac else z3.BoolVal(True)
+        conj.append(z3.If(v == 0, empty, filled))
+    for i, (k, _) in enumerate(result.items):  # no component without a non-empty well that consists of it
+        conj.append(z3.Or(*[z3.And(cell[3] != 0, term(result.items[i][1].fn(cell[0], cell[1]), "real") == 1) for cell in cells]))
+    ks = [k for k, _ in result.items]
+    for i in range(len(ks)):  # keys of a dict are pairwise different
+        for j in range(i):
+            conj.append(z3.Not(zbool(unwrap_bool(ops.equals(ex, ks[i], ks[j])))))
+    return mk_bool(z3.And(*conj)) if conj else True
